@@ -44,7 +44,7 @@ def cases(draw, hazard):
             prevl = next((x for x in reversed(laid[:i]) if x[0] != 'mark'), None)
             after_dot = l[3].get('force') or (prevl is not None and prevl[1][-1:] in '.])' and l[3].get('gap', ' ') == '')
             if draw(st.integers(0, 2)) == 0 and not after_dot:
-                new = R.br_body(b)           # [bracket-quoted name]: ended by ']' only
+                new = R.br_body(draw(st.sampled_from(['', '', "'", '"', " '", '`'])) + b)           # [bracket-quoted name]: ended by ']' only, also when it starts with a quote
             else:
                 new = R.dq_body(b) if l[1][0] == '"' else R.bt_body(b)
         elif l[1].startswith('/*'):
